@@ -261,7 +261,10 @@ class Batch:
         self.workers = workers
 
     def run(self, trees, rep=None, replay=True, coverage=False):
-        """Returns dict(progs, srcs, claims, terms, findings, stats); findings = list of (signature, pid, record, term)."""
+        """Export, model-check, replay.  Returns dict(trees, progs, srcs, claims, index, terms, findings, stats):
+        entry k of progs/srcs/claims/trees belongs to trees[index[k]] (a program whose claims depend on the
+        visit order appears once per order; programs on which the analysis does not terminate are dropped);
+        findings = list of (signature, k, monitor record, terminal state)."""
         tm = common.Timer()
         exported = export_all(trees, self.tables, self.workers)
         t_export = tm.s()
@@ -269,15 +272,20 @@ class Batch:
         if len(diverged) > max(3, len(trees) // 100):
             raise common.MachineryError('type inference did not terminate within %.0fs on %d of %d programs; first:\n%s' % (
                 ANALYSIS_TIMEOUT_S, len(diverged), len(trees), exported[diverged[0]][1]))
-        self.index = [i for i, e in enumerate(exported) if e[3] != 'diverged']      # batch pid -> index in `trees`
-        exported = [exported[i] for i in self.index]
-        errors = [(i, e[3]) for i, e in enumerate(exported) if e[3]]
+        errors = [(i, e[3]) for i, e in enumerate(exported) if e[3] and e[3] != 'diverged']
         if errors:
             i, msg = errors[0]
             raise common.MachineryError('type inference pipeline failed on %d program(s); first:\n%s\n%s' % (
                 len(errors), exported[i][1], msg))
-        progs = [e[0] for e in exported]
-        claims = [e[2] for e in exported]
+        index, progs, srcs, claims = [], [], [], []
+        for i, (p, src, c, err) in enumerate(exported):
+            if err:
+                continue
+            for variant in (c if isinstance(c, list) else [c]):
+                index.append(i)
+                progs.append(p)
+                srcs.append(src)
+                claims.append(variant)
         d = common.scratch('c19_%s_%d' % (self.name, os.getpid()))
         try:
             pf, cf = os.path.join(d, 'progs.json'), os.path.join(d, 'claims.json')
@@ -296,8 +304,8 @@ class Batch:
         seen = {t['pid'] for t in terms}
         if len(seen) != len(progs):
             raise common.MachineryError('TLC reported terminal states for %d of %d programs' % (len(seen), len(progs)))
-        stats = dict(programs=len(progs), executions=len(terms), analysis_diverged=len(diverged),
-                     t_export_s=t_export, t_tlc_s=res.wall_s)
+        stats = dict(programs=len(trees) - len(diverged), order_dependent_claims=len(progs) - (len(trees) - len(diverged)),
+                     executions=len(terms), analysis_diverged=len(diverged), t_export_s=t_export, t_tlc_s=res.wall_s)
         for t in terms:
             stats['out_' + t['out']['k']] = stats.get('out_' + t['out']['k'], 0) + 1
         if replay:
@@ -316,43 +324,68 @@ class Batch:
                 findings.append((signature(b, progs[t['pid']]), t['pid'], b, t))
         if rep is not None:
             rep.add_tlc(res)
-        return dict(progs=progs, srcs=[e[1] for e in exported], claims=claims, terms=terms, findings=findings,
-                    stats=stats, res=res, trees=[trees[i] for i in self.index], index=self.index)
+        return dict(progs=progs, srcs=srcs, claims=claims, terms=terms, findings=findings, stats=stats, res=res,
+                    trees=[trees[i] for i in index], index=index, diverged=[exported[i][1] for i in diverged])
 
 
 # ------------------------------------------------------------------------------------------------
-# shrinking a witness (signature preserving)
+# shrinking witnesses (signature preserving; all signatures in lockstep: one TLC run per round)
 # ------------------------------------------------------------------------------------------------
-def shrink(batch, tree, sig, rounds=12):
-    cur = tree
+def shrink_all(batch, starts, rounds):
+    cur = dict(starts)
+    active = set(starts)
     for _ in range(rounds):
-        cands = sorted(L.reductions(cur), key=L.size)
+        cands, owner = [], []
+        for sig in sorted(active):
+            for c in sorted(L.reductions(cur[sig]), key=L.size)[:400]:
+                cands.append(c)
+                owner.append(sig)
         if not cands:
             break
         out = batch.run(cands, replay=False)
-        ok = sorted({pid for s, pid, _, _ in out['findings'] if s == sig})
-        if not ok:
+        ok = {}
+        for s, k, _, _ in out['findings']:
+            i = out['index'][k]
+            if s == owner[i]:
+                ok.setdefault(s, set()).add(i)
+        for sig in sorted(active):
+            if ok.get(sig):
+                cur[sig] = cands[min(ok[sig], key=lambda i: (L.size(cands[i]), i))]
+            else:
+                active.discard(sig)
+        if not active:
             break
-        cur = out['trees'][ok[0]]   # the smallest reduction that keeps the signature
     return cur
 
 
-def witness(batch, tree, sig):
-    """Full description of one witness: source, the execution (decisions) and what was claimed / observed."""
-    out = batch.run([tree], replay=True)
-    p = out['progs'][0]
-    hits = [(b, t) for s, _, b, t in out['findings'] if s == sig]
-    hits.sort(key=lambda bt: (len(bt[1]['dec']), bt[1]['dec']))
-    b, t = hits[0]
-    o = b['o']
-    claim = out['claims'][0]['types'][o - 1]['ts'] if b['clause'] == 'types' else \
-        [c['ts'] for c in out['claims'][0]['closure'][_callee(p, t, b)] if c['name'] == b['name']]
-    return dict(source=out['srcs'][0], tree=repr(tree), decisions=t['dec'], outcome=t['out'],
-                clause=b['clause'], occurrence=L.r_expr(p, o, False), occurrence_id=o, variable=b['name'],
-                runtime_type=b['t'], claimed=claim, last_binding=dict(kind=b['wk'], had_claim=b['wc'], where=b['wrel']))
+def witnesses(batch, small):
+    """small: signature -> tree.  One full-mode run (replayed on CPython) describing one witness per signature:
+    source, the execution (decisions) and what was claimed / observed."""
+    sigs = sorted(small)
+    out = batch.run([small[s] for s in sigs], replay=True)
+    res = {}
+    for n, sig in enumerate(sigs):
+        hits = [(b, t) for s, k, b, t in out['findings'] if s == sig and out['index'][k] == n]
+        if not hits:
+            raise common.MachineryError('witness of %s is not reproducible:\n%s' % (sig, L.render(L.flatten(small[sig]))))
+        hits.sort(key=lambda bt: (len(bt[1]['dec']), bt[1]['dec'], bt[1]['pid'], bt[0]['o']))
+        b, t = hits[0]
+        p = out['progs'][t['pid']]
+        cl = out['claims'][t['pid']]
+        o = b['o']
+        claim = cl['types'][o - 1]['ts'] if b['clause'] == 'types' else \
+            [c['ts'] for c in cl['closure'][_callee(p, b)] if c['name'] == b['name']][0]
+        res[sig] = dict(
+            source=out['srcs'][t['pid']], tree=repr(small[sig]), decisions=t['dec'], outcome=t['out'], clause=b['clause'],
+            occurrence=L.r_expr(p, o, False) if p['exprs'][o - 1]['kind'] not in ('store', 'stuple', 'param')
+            else 'binding of ' + (b['name'] or 'tuple target'),
+            occurrence_id=o, variable=b['name'], runtime_type=b['t'], claimed=claim,
+            last_binding=dict(kind=b['wk'], had_claim=b['wc'], via_nonlocal=b['wnl'], activation=b['wrel']),
+            operand_unknown=b['unk'])
+    return res
 
 
-def _callee(p, t, b):
+def _callee(p, b):
     nm = p['exprs'][p['exprs'][b['o'] - 1]['args'][0] - 1]['name']
     return next(i for i, f in enumerate(p['fns']) if f['name'] == nm)
 
@@ -363,6 +396,7 @@ WHAT = {
     'c19:nonlocal-rebinding-invisible-to-caller': 'a local function rebinding a nonlocal variable to another type is invisible to the types the caller sees afterwards',
     'c19:assign-of-unknown-keeps-old-type': 'assigning a value of unknown type to a name leaves the old inferred type in place instead of forgetting it',
     'c19:closure-types-miss-captured-type': 'CLOSURE_TYPES of a local function do not cover the type of a captured variable at a call',
+    'c19:stale-claim-after-operand-became-unknown': 'a TYPES annotation written by an early visit of the fixed point stays on the node after a later visit finds an operand unknown',
 }
 
 
@@ -390,22 +424,30 @@ def run(rep):
         rep.sample(dict(family=tagged[out['index'][i]][0], source=out['srcs'][i]))
     # group monitor records by signature; shrink the witnesses of signatures that are not known findings
     groups = {}
-    for sig, pid, b, t in out['findings']:
-        groups.setdefault(sig, []).append((pid, b, t))
+    for sig, k, b, t in out['findings']:
+        groups.setdefault(sig, []).append((k, b, t))
     rep.set('monitor_records', len(out['findings']))
     rep.set('signatures', {s: len(v) for s, v in sorted(groups.items())})
-    shrink_batch = Batch(batch.tables, tier, name='TypeSemShrink', workers=min(WORKERS, 8))
+    shrink_batch = Batch(tables, tier, name='TypeSemShrink', workers=min(WORKERS, 8))
+    first = {}
+    for sig in sorted(groups):
+        ks = sorted({k for k, _, _ in groups[sig]}, key=lambda k: (L.size(trees[k]), k))
+        first[sig] = ks[0]
+    # witnesses of signatures that are not known findings are shrunk (always in the thorough tier)
+    todo = [sig for sig in sorted(groups) if sig not in rep.known_sigs or rep.tier != 'quick']
+    small = shrink_all(shrink_batch, {sig: trees[first[sig]] for sig in todo}, 10 if rep.tier == 'quick' else 25)
+    wit = witnesses(Batch(tables, tier, name='TypeSemWitness', workers=2, full=True), small) if small else {}
     for sig in sorted(groups):
         hits = groups[sig]
-        pids = sorted({pid for pid, _, _ in hits}, key=lambda pid: L.size(trees[pid]))
-        known = sig in rep.known_sigs
-        if known and rep.tier == 'quick':
-            w = dict(source=out['srcs'][pids[0]], programs=len(pids), records=len(hits))
+        nprog = len({out['index'][k] for k, _, _ in hits})
+        if sig in small:
+            w = wit[sig]
+            w.update(programs=nprog, records=len(hits), unshrunk_source=out['srcs'][first[sig]])
         else:
-            small = shrink(shrink_batch, trees[pids[0]], sig)
-            w = witness(shrink_batch, small, sig)
-            w.update(programs=len(pids), records=len(hits), unshrunk_source=out['srcs'][pids[0]])
+            w = dict(source=out['srcs'][first[sig]], programs=nprog, records=len(hits))
         rep.violation(sig, WHAT.get(sig, 'a reported set of types misses the run-time type (class %s)' % sig), w)
+    if out['diverged']:
+        rep.set('analysis_diverged_example', out['diverged'][0])
     rep.assume('CPython evaluates the instrumented rendering (every occurrence wrapped in an identity function) '
                'like the plain rendering that malt analyses')
     rep.assume('external functions and arguments may return/carry any value of their declared type(s); '
